@@ -315,11 +315,12 @@ fn run_c12_tactical(ctx: &mut Ctx) {
                 4 => placement_heavy_net().prop_map(Start::Placement),
                 2 => placement_castle().prop_map(Start::Placement),
                 2 => placement_ep().prop_map(Start::Placement),
+                4 => placement_advanced_pawns().prop_map(Start::Placement),
                 1 => (17usize..22).prop_map(Start::Corpus),
             ];
             (start, proptest::collection::vec(any::<u16>(), 0..5)).prop_map(|(start, choices)| RepRecipe { walk: WalkRecipe { start, choices }, cycles: 0, c1: 0, c2: 0, tail_cut: 0 })
         },
-        t.pick(14_000, 200_000),
+        t.pick(18_000, 260_000),
         |r, st| {
             let Some((start, moves)) = rep_moves(r) else { return Ok(()) };
             let mut p = start.clone();
